@@ -400,6 +400,15 @@ func execConcFlush(p *DPlan, tape *simrt.Tape, keepLog bool) harness.RunOut {
 			out.NonTrivial = true
 		}
 	}
+	lost := append([]simunix.LostWrite(nil), k.Lost...)
+	anyBarrierPanicked := false
+	for _, rs := range results {
+		for _, r := range rs {
+			if !r.barrierOK {
+				anyBarrierPanicked = true
+			}
+		}
+	}
 	// power failure: metadata kept, every unsynced write lost (all-zero choices)
 	k.SetFaults(nil)
 	k.Crash(func(int) int { return 0 })
@@ -437,6 +446,20 @@ func execConcFlush(p *DPlan, tape *simrt.Tape, keepLog bool) harness.RunOut {
 			allowed[ops[i].ID] = true
 		}
 		a := uint64(ci)
+		// a write that was dirty when ANOTHER client's fsync failed (and that
+		// client's Barrier panicked) is gone from write-back: this client's
+		// later, successful fsync cannot bring it back, and the loss has been
+		// reported. Such a block is unconstrained.
+		lostHere := false
+		for _, lw := range lost {
+			if lw.Off/model.BlockSize == int64(a) {
+				lostHere = true
+			}
+		}
+		if lostHere && anyBarrierPanicked {
+			out.Probes["block_lost_by_another_clients_failed_fsync"]++
+			continue
+		}
 		if !uniform[a] || !allowed[got[a]] {
 			out.Violation = &harness.Violation{Oracle: "filedisk.crash.barrier-lost", Key: "filedisk.crash.barrier-lost/concurrent",
 				Msg: fmt.Sprintf("client %d wrote %#x to block %d and its Barrier returned normally, but after a power failure the block holds %#x (uniform=%v); allowed: %v. Faults: %+v", ci, rs[lastOK].id, a, got[a], uniform[a], keys(allowed), p.Faults)}
